@@ -753,7 +753,34 @@ def _with_genesis(f):
     g.__doc__ = f.__doc__; g.__name__ = f.__name__
     return g
 
+def oracle_C06(hi, ops, obs):
+    """a block in which no message that could touch it succeeded commits the pending list, the x/staking parameters and the
+    validators' tokens it started with (transactions and gov-executed proposals alike)"""
+    out = []
+    for j, b in enumerate(obs):
+        if j == 0 or b['halt'] or j - 1 >= len(ops['blocks']):
+            continue
+        prev = obs[j-1]; ob = ops['blocks'][j-1]
+        kinds = set(m.kind for (_, _, m) in successful_leaves(ob, b))
+        failed = [i for i, tx in enumerate(ob['txs']) if not tx_ok(b, i)]
+        if not failed:
+            continue
+        if 'pend' in b and 'pend' in prev and not (kinds & {'CREATE', 'SETPOWER', 'RMPENDING'}) and b['pend'] != prev['pend']:
+            out.append(Viol(hi, b['h'], 'failed-message-changed-pending', f"no CreateValidator / SetPower / RemovePending succeeded; pending {prev['pend']} -> {b['pend']}"))
+        if 'par' in b and 'par' in prev and 'PARAMS' not in kinds and b['par'] != prev['par']:
+            out.append(Viol(hi, b['h'], 'failed-message-changed-params', f"no UpdateStakingParams succeeded; {prev['par']} -> {b['par']}"))
+        if b['vals'] and prev['vals'] and not (kinds & {'SETPOWER', 'REMOVE', 'UNJAIL'}) and not ob['evid'] and not _jailed_now(prev, b):
+            for op, v in b['vals'].items():
+                pv = prev['vals'].get(op)
+                if pv is None:
+                    out.append(Viol(hi, b['h'], 'failed-message-created-validator', f"op {op} appeared although no SetPower succeeded"))
+                elif pv['tokens'] != v['tokens'] or pv['shares'] != v['shares']:
+                    out.append(Viol(hi, b['h'], 'failed-message-changed-tokens', f"op {op}: tokens {pv['tokens']} -> {v['tokens']} although no SetPower / RemoveValidator succeeded and nobody was slashed"))
+        if out: break
+    return out
+
 ORACLES = {
+    'C06': oracle_C06,
     'C07': oracle_C07, 'C08': oracle_C08, 'C09': oracle_C09,
     'C01': oracle_C01, 'C02': oracle_C02, 'C03': oracle_C03, 'C04': oracle_C04, 'C05': oracle_C05,
     'C10': oracle_C10, 'C11': oracle_C11, 'C13': oracle_C13, 'C14': oracle_C14, 'C15': oracle_C15, 'C16': oracle_C16, 'C18': oracle_C18,
